@@ -11,6 +11,8 @@ import (
 	"sort"
 	"strings"
 	"time"
+
+	"golang.org/x/tools/go/ssa"
 )
 
 var propRe = regexp.MustCompile(`^C\d\d$`)
@@ -84,6 +86,10 @@ func oblProps(w *World, o *Obl) []string {
 	var ps []string
 	if c := w.cs.Funcs[o.Fn]; c != nil {
 		ps = contractProps(c)
+	}
+	// a contract without its own property labels supports the properties of the functions that rely on it
+	for _, p := range w.supportProps()[o.Fn] {
+		ps = appendUnique(ps, p)
 	}
 	if o.Kind == "decreases" {
 		ps = appendUnique(ps, "C11")
@@ -694,4 +700,73 @@ func (w *World) encapsulationObligations() []*Obl {
 		out = append(out, o)
 	}
 	return out
+}
+
+// supportProps: for every function with a contract, the properties of all (transitive) callers whose proofs use that contract.
+func (w *World) supportProps() map[string][]string {
+	if w.support != nil {
+		return w.support
+	}
+	callees := map[string][]string{} // caller key -> contracted callee keys
+	for key, fn := range w.funcs {
+		seen := map[string]bool{}
+		for _, b := range fn.Blocks {
+			for _, in := range b.Instrs {
+				ci, ok := in.(ssa.CallInstruction)
+				if !ok {
+					continue
+				}
+				c := ci.Common()
+				var ks []string
+				if c.IsInvoke() {
+					e := &Enc{w: w}
+					ks, _ = e.calleeKeys(c)
+				} else if f := c.StaticCallee(); f != nil {
+					ks = []string{fnKey(f)}
+				}
+				for _, k := range ks {
+					if w.cs.Funcs[k] != nil && !seen[k] && k != key {
+						seen[k] = true
+						callees[key] = append(callees[key], k)
+					}
+				}
+			}
+		}
+	}
+	props := map[string]map[string]bool{}
+	add := func(k, p string) bool {
+		if props[k] == nil {
+			props[k] = map[string]bool{}
+		}
+		if props[k][p] {
+			return false
+		}
+		props[k][p] = true
+		return true
+	}
+	own := map[string][]string{}
+	for k, c := range w.cs.Funcs {
+		own[k] = contractProps(c)
+	}
+	for changed := true; changed; {
+		changed = false
+		for caller, cs := range callees {
+			src := append([]string{}, own[caller]...)
+			for p := range props[caller] {
+				src = append(src, p)
+			}
+			for _, callee := range cs {
+				for _, p := range src {
+					if add(callee, p) {
+						changed = true
+					}
+				}
+			}
+		}
+	}
+	w.support = map[string][]string{}
+	for k, m := range props {
+		w.support[k] = sortedKeys(m)
+	}
+	return w.support
 }
